@@ -200,6 +200,10 @@ func (b *Backend) GetTransactionReceipt(hash common.Hash) (*rpctypes.RPCReceipt,
 		if res.EthTxIndex > 0 {
 			// get gas used of previous txs
 			for txIdx, prevTx := range resBlock.Block.Txs[:res.TxIndex] {
+				if evmtypes.TxWasDroppedPreAnteHandleDueToBlockGasExcess(blockRes.TxsResults[txIdx]) {
+					// never reached the ante handler successfully: not an Ethereum tx of this block, consumed no gas
+					continue
+				}
 				prevCosmosTx, err := b.clientCtx.TxConfig.TxDecoder()(prevTx)
 				if err != nil {
 					b.logger.Debug("decoding failed", "error", err.Error())
